@@ -253,6 +253,24 @@ fn act_from_json(j: &J) -> Act {
 }
 
 pub fn replay_case(c: &J) -> Result<(), String> {
+    if c["op"].as_str() == Some("set_name_once") {
+        let init = R::from_json(&c["init"]);
+        let n = c["name"].as_str().unwrap_or("");
+        let mut t = init.build();
+        let real = t.set_atom_name(n).map_err(|_| ());
+        let after = R::canon_of_term(&t);
+        let expect: Result<R, ()> = match init.tag {
+            Tag::Word | Tag::IVar | Tag::DVar | Tag::QVar | Tag::Operator => Ok(R { name: n.to_string(), ..init.canon() }),
+            Tag::Placeholder => Ok(init.canon()),
+            Tag::Interval => model_parse_usize(n).map(|v| R { idx: v, ..init.canon() }).ok_or(()),
+            _ => Err(()),
+        };
+        return match (real, expect) {
+            (Ok(()), Ok(m)) if after == m => Ok(()),
+            (Err(()), Err(())) if after == init.canon() => Ok(()),
+            _ => Err(format!("set_atom_name({n:?}) on {} disagrees with the reference model (term now {})", init.show(), after.show())),
+        };
+    }
     let init = R::from_json(&c["init"]);
     let hist: Vec<Act> = c["history"].as_array().map(|a| a.iter().map(act_from_json).collect()).unwrap_or_default();
     replay_history(&init, &hist).map(|_| ())
@@ -303,5 +321,51 @@ pub fn run(run: &Run) {
             &[],
         );
     }
+    // wide but shallow: EVERY string of length <= 4 over {+ - 0 7 9 space a _} as a new name, on every
+    // initial term (one step), against the same reference model
+    let alpha = ['+', '-', '0', '7', '9', ' ', 'a', '_'];
+    let mut names: Vec<String> = vec![String::new()];
+    let mut cur: Vec<String> = vec![String::new()];
+    for _ in 0..4 {
+        let mut next = vec![];
+        for s in &cur {
+            for c in alpha {
+                let mut t = s.clone();
+                t.push(c);
+                next.push(t);
+            }
+        }
+        names.extend(next.iter().cloned());
+        cur = next;
+    }
+    run.bound("one_step_names", json!(names.len()));
+    let mut one_step = 0u64;
+    for init in &inits {
+        for n in &names {
+            one_step += 1;
+            let mut t = init.build();
+            let before = R::canon_of_term(&t);
+            let real = quiet_catch(AssertUnwindSafe(|| t.set_atom_name(n).map_err(|_| ())));
+            let after = R::canon_of_term(&t);
+            let expect: Result<R, ()> = match init.tag {
+                Tag::Word | Tag::IVar | Tag::DVar | Tag::QVar | Tag::Operator => Ok(R { name: n.clone(), ..init.canon() }),
+                Tag::Placeholder => Ok(init.canon()),
+                Tag::Interval => model_parse_usize(n).map(|v| R { idx: v, ..init.canon() }).ok_or(()),
+                _ => Err(()),
+            };
+            let bad = match (&real, &expect) {
+                (Ok(Ok(())), Ok(m)) => if &after != m { Some(format!("succeeded, term is {} but should be {}", after.show(), m.show())) } else { None },
+                (Ok(Err(())), Err(())) => if after != before { Some("failed but changed the term".to_string()) } else { None },
+                (Ok(Ok(())), Err(())) => Some(format!("succeeded (term now {}), should fail", after.show())),
+                (Ok(Err(())), Ok(m)) => Some(format!("failed, should succeed and give {}", m.show())),
+                (Err(p), _) => Some(format!("panics: {p}")),
+            };
+            if let Some(b) = bad {
+                run.violation(&format!("start {} ; set_atom_name({n:?}) : {b}", init.show()), json!({"op": "set_name_once", "init": init.to_json(), "name": n}), &[]);
+            }
+        }
+    }
+    run.eval(one_step);
+    run.count("one_step_set_atom_name_cases", one_step);
     run.sample(json!({"init": inits[9].show(), "history": [describe(Act::Push(2)), describe(Act::SetName(0)), describe(Act::Push(4))]}));
 }
